@@ -37,6 +37,13 @@
 #include "adf_file_block.h"
 #include "adf_salv.h"
 
+/* protocol output: a private stream on a dup of fd 1; fd 1 itself is pointed at /dev/null so that the
+   library's own printf() chatter (adfReadEntryBlock prints to stdout) cannot corrupt the protocol */
+static FILE *g_out;
+#define printf(...) fprintf(g_out, __VA_ARGS__)
+#undef putchar
+#define putchar(c) fputc((c), g_out)
+
 /* ------------------------------------------------------------------ globals */
 static char g_tmp[512] = "/dev/shm";
 static int g_trace = 1;
@@ -147,7 +154,7 @@ static void read_guard(void) {
     if (g_read_limit && g_reads_op > g_read_limit) {
         g_inlib = 0;
         printf("= ABORT read-limit %ld\n.\n", g_read_limit);
-        fflush(stdout);
+        fflush(g_out);
         _exit(3);
     }
 }
@@ -212,7 +219,7 @@ static char *unhex(const char *h) {
     return s;
 }
 static void puthex(const uint8_t *p, size_t n) {
-    if (n == 0) { fputs("-", stdout); return; }
+    if (n == 0) { fputs("-", g_out); return; }
     static const char d[] = "0123456789abcdef";
     for (size_t i = 0; i < n; i++) { putchar(d[p[i]>>4]); putchar(d[p[i]&15]); }
 }
@@ -232,6 +239,9 @@ static struct AdfVolume *getvol(int d, int p) {
     if (p < 0 || p >= g_dev[d]->nVol) return NULL;
     return g_dev[d]->volList[p];
 }
+/* operations on a volume that is not mounted are outside the API's envelope: refuse them here */
+static int g_mounted[MAXDEV][16];
+#define NEEDVOL(d,p) if (!getvol((d),(p)) || (p) >= 16 || !g_mounted[(d)][(p)]) { printf("= not-mounted\n.\n"); fflush(g_out); continue; }
 
 static void print_list(struct AdfList *l, int depth, int cachemode) {
     for (; l; l = l->next) {
@@ -239,7 +249,7 @@ static void print_list(struct AdfList *l, int depth, int cachemode) {
         printf("E %d %d ", depth, e->type);
         puthex((uint8_t*)e->name, strlen(e->name));
         printf(" %d %u %d ", e->sector, e->size, e->access);
-        if (e->comment) puthex((uint8_t*)e->comment, strlen(e->comment)); else fputs("~", stdout);
+        if (e->comment) puthex((uint8_t*)e->comment, strlen(e->comment)); else fputs("~", g_out);
         printf(" %d %d %d %d %d %d", e->year, e->month, e->days, e->hour, e->mins, e->secs);
         if (!cachemode) printf(" %d %d", e->real, e->parent);
         putchar('\n');
@@ -253,7 +263,7 @@ static void dev_summary(struct AdfDevice *dev) {
     for (int i = 0; i < dev->nVol; i++) {
         struct AdfVolume *v = dev->volList[i];
         printf(" [%d %d %d ", v->firstBlock, v->lastBlock, v->rootBlock);
-        if (v->volName) puthex((uint8_t*)v->volName, strlen(v->volName)); else fputs("~", stdout);
+        if (v->volName) puthex((uint8_t*)v->volName, strlen(v->volName)); else fputs("~", g_out);
         printf("]");
     }
 }
@@ -270,7 +280,9 @@ static int do_kernel(char **a, int n);
 int main(int argc, char **argv) {
     if (argc > 1) snprintf(g_tmp, sizeof g_tmp, "%s", argv[1]);
     if (getenv("ADFH_FILL")) { g_fill = (unsigned char) strtol(getenv("ADFH_FILL"), NULL, 0); g_fill_on = 1; }
-    setvbuf(stdout, NULL, _IOFBF, 1<<16);
+    g_out = fdopen(dup(1), "w");
+    setvbuf(g_out, NULL, _IOFBF, 1<<16);
+    if (!freopen("/dev/null", "w", stdout)) {}
     adfEnvInitDefault();
     /* silence library chatter on stderr unless asked */
     if (!getenv("ADFH_VERBOSE")) { if (!freopen("/dev/null", "w", stderr)) {} }
@@ -291,7 +303,7 @@ int main(int argc, char **argv) {
         const char *op = a[0];
 #define IS(s) (strcmp(op, s) == 0)
 #define I(k) (atol(a[k]))
-        if (op[0]=='k' && op[1]=='_') { do_kernel(a, n); fflush(stdout); continue; }
+        if (op[0]=='k' && op[1]=='_') { do_kernel(a, n); fflush(g_out); continue; }
         if (IS("trace")) { g_trace = (int)I(1); printf("= ok\n"); }
         else if (IS("clock")) {
             g_clock.year=(int)I(1)-1900; g_clock.mon=(int)I(2); g_clock.day=(int)I(3);
@@ -374,8 +386,9 @@ int main(int argc, char **argv) {
         }
         else if (IS("closedev")) {
             int d = (int)I(1);
+            if (!g_dev[d]) { printf("= no-dev\n.\n"); fflush(g_out); continue; }
             g_inlib = 1; adfCloseDev(g_dev[d]); g_inlib = 0;
-            g_dev[d] = NULL;
+            g_dev[d] = NULL; memset(g_mounted[d], 0, sizeof g_mounted[d]);
             printf("= ok\n");
         }
         else if (IS("opendev")) {          /* opendev d ro : adfMountDev */
@@ -389,23 +402,29 @@ int main(int argc, char **argv) {
         }
         else if (IS("mount")) {            /* mount d part ro */
             int d = (int)I(1);
+            if (!g_dev[d]) { printf("= fail\n.\n"); fflush(g_out); continue; }
             g_inlib = 1; struct AdfVolume *v = g_dev[d] ? adfMount(g_dev[d], (int)I(2), (BOOL)I(3)) : NULL; g_inlib = 0;
+            if (I(2) >= 0 && I(2) < 16) g_mounted[d][I(2)] = (v != NULL);
             if (!v) printf("= fail\n");
             else printf("= ok dos=%d dbs=%u ro=%d bmsize=%u first=%d last=%d root=%d cur=%d\n",
                         v->dosType, v->datablockSize, v->readOnly, v->bitmapSize,
                         v->firstBlock, v->lastBlock, v->rootBlock, v->curDirPtr);
         }
         else if (IS("unmount")) {
+            NEEDVOL((int)I(1),(int)I(2));
+            g_mounted[I(1)][I(2)] = 0;
             struct AdfVolume *v = getvol((int)I(1),(int)I(2));
             g_inlib = 1; adfUnMount(v); g_inlib = 0;
             printf("= ok\n");
         }
         else if (IS("free")) {
+            NEEDVOL((int)I(1),(int)I(2));
             struct AdfVolume *v = getvol((int)I(1),(int)I(2));
             g_inlib = 1; uint32_t f = adfCountFreeBlocks(v); g_inlib = 0;
             printf("= free=%u\n", f);
         }
         else if (IS("bmbits")) {           /* in-memory bitmap as seen by adfIsBlockFree over 2..last-first */
+            NEEDVOL((int)I(1),(int)I(2));
             struct AdfVolume *v = getvol((int)I(1),(int)I(2));
             uint32_t h = 2166136261u; long cnt = 0;
             for (int b = 2; b <= v->lastBlock - v->firstBlock; b++) {
@@ -415,6 +434,7 @@ int main(int argc, char **argv) {
             printf("= free=%ld hash=%08x\n", cnt, h);
         }
         else if (IS("mkdir") || IS("remove")) {   /* mkdir d p namehex */
+            NEEDVOL((int)I(1),(int)I(2));
             struct AdfVolume *v = getvol((int)I(1),(int)I(2)); char *nm = unhex(a[3]);
             g_inlib = 1;
             RETCODE rc = IS("mkdir") ? adfCreateDir(v, v->curDirPtr, nm) : adfRemoveEntry(v, v->curDirPtr, nm);
@@ -422,6 +442,7 @@ int main(int argc, char **argv) {
             printf("= rc=%d\n", rc);
         }
         else if (IS("rename")) {           /* rename d p oldhex newhex [destdir components from root...] */
+            NEEDVOL((int)I(1),(int)I(2));
             struct AdfVolume *v = getvol((int)I(1),(int)I(2));
             char *o = unhex(a[3]), *nw = unhex(a[4]);
             SECTNUM src = v->curDirPtr, dst = v->curDirPtr;
@@ -443,33 +464,39 @@ int main(int argc, char **argv) {
             printf("= rc=%d\n", rc);
         }
         else if (IS("comment")) {
+            NEEDVOL((int)I(1),(int)I(2));
             struct AdfVolume *v = getvol((int)I(1),(int)I(2)); char *nm = unhex(a[3]), *c = unhex(a[4]);
             g_inlib = 1; RETCODE rc = adfSetEntryComment(v, v->curDirPtr, nm, c); g_inlib = 0;
             free(nm); free(c);
             printf("= rc=%d\n", rc);
         }
         else if (IS("access")) {
+            NEEDVOL((int)I(1),(int)I(2));
             struct AdfVolume *v = getvol((int)I(1),(int)I(2)); char *nm = unhex(a[3]);
             g_inlib = 1; RETCODE rc = adfSetEntryAccess(v, v->curDirPtr, nm, (int32_t)I(4)); g_inlib = 0;
             free(nm);
             printf("= rc=%d\n", rc);
         }
         else if (IS("chdir")) {
+            NEEDVOL((int)I(1),(int)I(2));
             struct AdfVolume *v = getvol((int)I(1),(int)I(2)); char *nm = unhex(a[3]);
             g_inlib = 1; RETCODE rc = adfChangeDir(v, nm); g_inlib = 0; free(nm);
             printf("= rc=%d cur=%d\n", rc, v->curDirPtr);
         }
         else if (IS("parent")) {
+            NEEDVOL((int)I(1),(int)I(2));
             struct AdfVolume *v = getvol((int)I(1),(int)I(2));
             g_inlib = 1; RETCODE rc = adfParentDir(v); g_inlib = 0;
             printf("= rc=%d cur=%d\n", rc, v->curDirPtr);
         }
         else if (IS("toroot")) {
+            NEEDVOL((int)I(1),(int)I(2));
             struct AdfVolume *v = getvol((int)I(1),(int)I(2));
             g_inlib = 1; adfToRootDir(v); g_inlib = 0;
             printf("= rc=0 cur=%d\n", v->curDirPtr);
         }
         else if (IS("list")) {             /* list d p recurse */
+            NEEDVOL((int)I(1),(int)I(2));
             struct AdfVolume *v = getvol((int)I(1),(int)I(2));
             int cachemode = adfEnv.useDirCache && isDIRCACHE(v->dosType);
             g_inlib = 1; struct AdfList *l = adfGetRDirEnt(v, v->curDirPtr, (BOOL)I(3)); g_inlib = 0;
@@ -479,6 +506,7 @@ int main(int argc, char **argv) {
             g_inlib = 1; if (l) adfFreeDirList(l); g_inlib = 0;
         }
         else if (IS("open")) {             /* open h d p namehex mode */
+            NEEDVOL((int)I(2),(int)I(3));
             int h = (int)I(1);
             struct AdfVolume *v = getvol((int)I(2),(int)I(3)); char *nm = unhex(a[4]);
             g_inlib = 1; g_file[h] = adfFileOpen(v, nm, (AdfFileMode)I(5)); g_inlib = 0; free(nm);
@@ -487,10 +515,10 @@ int main(int argc, char **argv) {
                         g_file[h]->fileHdr->headerKey);
         }
         else if (IS("read")) {             /* read h n */
-            int h = (int)I(1); if (h < 0 || h >= MAXFILE || !g_file[h]) { printf("= no-such-handle\n.\n"); fflush(stdout); continue; } uint32_t cnt = (uint32_t)strtoul(a[2], NULL, 10);
+            int h = (int)I(1); if (h < 0 || h >= MAXFILE || !g_file[h]) { printf("= no-such-handle\n.\n"); fflush(g_out); continue; } uint32_t cnt = (uint32_t)strtoul(a[2], NULL, 10);
             /* the buffer is sized by what can legitimately be returned, plus slack */
             uint32_t cap2 = cnt; uint32_t sz = adfFileGetSize(g_file[h]);
-            if (cap2 > sz + 1024) cap2 = sz + 1024;
+            if ((uint64_t) cap2 > (uint64_t) sz + 1024) cap2 = sz + 1024;
             uint8_t *b = malloc(cap2 ? cap2 : 1);
             g_inlib = 1; uint32_t r = adfFileRead(g_file[h], cnt, b); g_inlib = 0;
             printf("= n=%u pos=%u size=%u eof=%d data=", r, adfFileGetPos(g_file[h]), adfFileGetSize(g_file[h]),
@@ -500,7 +528,7 @@ int main(int argc, char **argv) {
             free(b);
         }
         else if (IS("write")) {            /* write h n seed */
-            int h = (int)I(1); if (h < 0 || h >= MAXFILE || !g_file[h]) { printf("= no-such-handle\n.\n"); fflush(stdout); continue; } uint32_t cnt = (uint32_t)strtoul(a[2], NULL, 10); uint32_t seed = (uint32_t)strtoul(a[3], NULL, 10);
+            int h = (int)I(1); if (h < 0 || h >= MAXFILE || !g_file[h]) { printf("= no-such-handle\n.\n"); fflush(g_out); continue; } uint32_t cnt = (uint32_t)strtoul(a[2], NULL, 10); uint32_t seed = (uint32_t)strtoul(a[3], NULL, 10);
             uint8_t *b = malloc(cnt ? cnt : 1);
             for (uint32_t i = 0; i < cnt; i++) b[i] = gen_byte(seed, i);
             g_inlib = 1; uint32_t r = adfFileWrite(g_file[h], cnt, b); g_inlib = 0;
@@ -508,37 +536,39 @@ int main(int argc, char **argv) {
             free(b);
         }
         else if (IS("seek")) {
-            int h = (int)I(1); if (h < 0 || h >= MAXFILE || !g_file[h]) { printf("= no-such-handle\n.\n"); fflush(stdout); continue; }
+            int h = (int)I(1); if (h < 0 || h >= MAXFILE || !g_file[h]) { printf("= no-such-handle\n.\n"); fflush(g_out); continue; }
             g_inlib = 1; RETCODE rc = adfFileSeek(g_file[h], (uint32_t)strtoul(a[2], NULL, 10)); g_inlib = 0;
             printf("= rc=%d pos=%u size=%u eof=%d\n", rc, adfFileGetPos(g_file[h]), adfFileGetSize(g_file[h]), adfEndOfFile(g_file[h]));
         }
         else if (IS("trunc")) {
-            int h = (int)I(1); if (h < 0 || h >= MAXFILE || !g_file[h]) { printf("= no-such-handle\n.\n"); fflush(stdout); continue; }
+            int h = (int)I(1); if (h < 0 || h >= MAXFILE || !g_file[h]) { printf("= no-such-handle\n.\n"); fflush(g_out); continue; }
             g_inlib = 1; RETCODE rc = adfFileTruncate(g_file[h], (uint32_t)strtoul(a[2], NULL, 10)); g_inlib = 0;
             printf("= rc=%d pos=%u size=%u eof=%d\n", rc, adfFileGetPos(g_file[h]), adfFileGetSize(g_file[h]), adfEndOfFile(g_file[h]));
         }
         else if (IS("flush")) {
-            int h = (int)I(1); if (h < 0 || h >= MAXFILE || !g_file[h]) { printf("= no-such-handle\n.\n"); fflush(stdout); continue; }
+            int h = (int)I(1); if (h < 0 || h >= MAXFILE || !g_file[h]) { printf("= no-such-handle\n.\n"); fflush(g_out); continue; }
             g_inlib = 1; RETCODE rc = adfFileFlush(g_file[h]); g_inlib = 0;
             printf("= rc=%d\n", rc);
         }
         else if (IS("close")) {
-            int h = (int)I(1); if (h < 0 || h >= MAXFILE || !g_file[h]) { printf("= no-such-handle\n.\n"); fflush(stdout); continue; }
+            int h = (int)I(1); if (h < 0 || h >= MAXFILE || !g_file[h]) { printf("= no-such-handle\n.\n"); fflush(g_out); continue; }
             g_inlib = 1; adfFileClose(g_file[h]); g_inlib = 0; g_file[h] = NULL;
             printf("= ok\n");
         }
         else if (IS("stat")) {
-            int h = (int)I(1); if (h < 0 || h >= MAXFILE || !g_file[h]) { printf("= no-such-handle\n.\n"); fflush(stdout); continue; } struct AdfFile *f = g_file[h];
+            int h = (int)I(1); if (h < 0 || h >= MAXFILE || !g_file[h]) { printf("= no-such-handle\n.\n"); fflush(g_out); continue; } struct AdfFile *f = g_file[h];
             printf("= pos=%u size=%u eof=%d nblk=%u cur=%d pidb=%u pieb=%u\n", adfFileGetPos(f), adfFileGetSize(f),
                    adfEndOfFile(f), f->nDataBlock, f->curDataPtr, f->posInDataBlk, f->posInExtBlk);
         }
         else if (IS("bootblock")) {
+            NEEDVOL((int)I(1),(int)I(2));
             struct AdfVolume *v = getvol((int)I(1),(int)I(2));
             uint8_t code[1024]; for (int i = 0; i < 1024; i++) code[i] = gen_byte((uint32_t)I(3), (uint32_t)i);
             g_inlib = 1; RETCODE rc = adfInstallBootBlock(v, code); g_inlib = 0;
             printf("= rc=%d\n", rc);
         }
         else if (IS("undel")) {           /* undel d p parentsect sect */
+            NEEDVOL((int)I(1),(int)I(2));
             struct AdfVolume *v = getvol((int)I(1),(int)I(2));
             g_inlib = 1; RETCODE rc = adfUndelEntry(v, (SECTNUM)I(3), (SECTNUM)I(4)); g_inlib = 0;
             printf("= rc=%d\n", rc);
@@ -580,9 +610,9 @@ int main(int argc, char **argv) {
         }
         else if (IS("rmdev")) { int d=(int)I(1); if (!g_dev_native[d]) unlink(g_devpath[d]); else { free(g_mem[d].data); g_mem[d].data=NULL; } printf("= ok\n"); }
         else { printf("= bad-op %s\n", op); }
-        if (g_trace && g_tlen) fputs(g_tbuf, stdout);
+        if (g_trace && g_tlen) fputs(g_tbuf, g_out);
         printf(".\n");
-        fflush(stdout);
+        fflush(g_out);
     }
     for (int d = 0; d < MAXDEV; d++) if (g_devpath[d][0]) unlink(g_devpath[d]);
     return 0;
